@@ -922,7 +922,19 @@ class SyncObj(object):
                 if prevEntries[0][2] != prevLogTerm:
                     self.__sendNextNodeIdx(node, nextNodeIdx = prevLogIdx, success = False, reset=True)
                     return
-                if len(prevEntries) > 1:
+                nextNodeIdx = prevLogIdx + len(newEntries) + 1
+
+                # Skip the entries we already have, delete only from the first conflicting one:
+                # a delayed or duplicated append_entries must not truncate entries that were
+                # stored (and acknowledged) later.
+                numSame = 0
+                while numSame < len(newEntries) and numSame + 1 < len(prevEntries) and \
+                        prevEntries[numSame + 1][2] == newEntries[numSame][2]:
+                    numSame += 1
+                newEntries = newEntries[numSame:]
+                prevEntries = prevEntries[numSame:]
+
+                if len(prevEntries) > 1 and newEntries:
                     # rollback cluster changes
                     if self.__conf.dynamicMembershipChange:
                         for entry in reversed(prevEntries[1:]):
@@ -930,7 +942,7 @@ class SyncObj(object):
                             if clusterChangeRequest is not None:
                                 self.__doChangeCluster(clusterChangeRequest, reverse=True)
 
-                    self.__deleteEntriesFrom(prevLogIdx + 1)
+                    self.__deleteEntriesFrom(prevLogIdx + numSame + 1)
                 for entry in newEntries:
                     self.__raftLog.add(*entry)
 
@@ -941,11 +953,10 @@ class SyncObj(object):
                         if clusterChangeRequest is not None:
                             self.__doChangeCluster(clusterChangeRequest)
 
-                nextNodeIdx = prevLogIdx + 1
-                if newEntries:
-                    nextNodeIdx = newEntries[-1][1] + 1
-
                 self.__sendNextNodeIdx(node, nextNodeIdx=nextNodeIdx, success=True)
+
+                # Only the entries up to the last one carried by this message are known to match the leader
+                leaderCommitIndex = min(leaderCommitIndex, nextNodeIdx - 1)
 
             # Install snapshot
             elif serialized is not None:
